@@ -1,11 +1,27 @@
 """C01 — a fulfilled Promise is delivered exactly once, intact (structural clauses; see DESIGN.md 4/C01)."""
-from rules import lib_ready
+from rules import lib_core, lib_order, lib_ready
+
+CB = 'yaclib::detail::BaseCore::_callback'
+FILES = ('include/yaclib/algo/detail/', 'src/algo/', 'include/yaclib/async/promise.hpp', 'include/yaclib/async/future.hpp',
+         'include/yaclib/async/connect.hpp', 'include/yaclib/async/shared_promise.hpp', 'include/yaclib/lazy/',
+         'include/yaclib/async/detail/', 'include/yaclib/algo/')
 
 
 def run(ctx):
     fbs = ctx.facts(['K17', 'K20'], kinds=('probe', 'lib'), only=r'p_async\.cpp$|src/')
     rr = ctx.rule('R-READY', 'readiness predicates are false in the abstract states Empty and Callback of the '
                   'completion word and true in Result', minimum=4)
+    rw = ctx.rule('R-WORD', 'every operation on BaseCore::_callback is a role of its protocol (kResult only by an '
+                  'exchange, a callback only by CAS or the pre-publication store, withdraw never over kResult)',
+                  minimum=10)
+    ro = ctx.rule('R-ORDER', 'role minimum orders of _callback', minimum=10)
+    rc = ctx.rule('R-CASKIND', 'unique registration CAS is strong / weak only in a retry loop', minimum=3)
+    rp = ctx.rule('R-PUBLISH', 'Store precedes SetResult on every path', minimum=20)
+    rn = ctx.rule('R-NODISCARD', 'results of registration / publication / reset calls are used', minimum=40)
+    rd = ctx.rule('R-DISPATCH.inline', 'inline dispatch exactly on the not-registered / callback-present edge',
+                  minimum=5)
+    rt = ctx.rule('R-DTOR', 'destructor protocol of Promise / FutureBase / Detach', minimum=6)
+    rcn = ctx.rule('R-CONNECT', 'Connect: registered => released, not registered => Set from the result', minimum=4)
     for cfg, fb in sorted(fbs.items()):
         seen = set()
         for f in sorted(fb.fn.values(), key=lambda f: f.full):
@@ -21,3 +37,14 @@ def run(ctx):
                     lib_ready.check(ctx, fb, rr, f, 'R-READY ' + f.qn + ' const& [' + cfg + ']', pointer=True)
         if len(seen) < 2:
             ctx.broken('FutureBase::Ready / Get() const& not instantiated in %s' % cfg)
+        lib_order.check(ctx, fb, cfg, [CB], rw, ro, rc)
+        lib_core.check_publish(ctx, fb, rp)
+        lib_core.check_nodiscard(ctx, fb, rn, lambda f: any(facts_rel(f, ctx).startswith(p) for p in FILES))
+        lib_core.check_inline_dispatch(ctx, fb, rd)
+        lib_core.check_dtors(ctx, fb, rt)
+        lib_core.check_connect(ctx, fb, rcn)
+
+
+def facts_rel(f, ctx):
+    import os
+    return os.path.relpath(f.file, ctx.root) if f.file.startswith(ctx.root) else f.file
